@@ -59,6 +59,8 @@ def main():
             out["test_suite"] = {"exit": rc, "summary": [l for l in o.splitlines() if " passed" in l or " failed" in l][-1:]}
         fired = {}
         props = [c["property_id"] for c in json.loads((VERIF / "MANIFEST.json").read_text())["checks"]]
+        if os.environ.get("SEEDCHECK_ONLY"):
+            props = [p_ for p_ in props if p_ in os.environ["SEEDCHECK_ONLY"].split(",")]
         for pid in props:
             ev = tmp / f"ev-{pid}"
             e2 = dict(os.environ, GSVERIF_EVIDENCE_DIR=str(ev), PYTHONPATH=str(VERIF), GSVERIF_JOBS=os.environ.get("GSVERIF_JOBS", "4"))
